@@ -177,3 +177,40 @@ func VH_C13_waitlist(steps int) {
 	zzvrt.Cover("left-with-full-channel", live[0] && leaving[0] && registered[0] && len(chans[0]) == 1)
 	zzvrt.ObserveInt("waitlist", len(p.waitList))
 }
+
+// connection.SetMasterHead: for any sequence of reported heads the stored head is the one with the
+// largest seqno seen so far (monotone, first one wins on ties), and exactly one notification per
+// strict increase is published to the pool's channel, in order, carrying that head and connection.
+func VH_C13_set_master_head(n int) {
+	ch := make(chan masterHeadUpdated, 10)
+	c := &connection{id: 7, masterHeadUpdatedCh: ch}
+	c.masterHead.Seqno = zzvrt.NondetU32("start")
+	best := c.masterHead.Seqno
+	published := 0
+	for i := 0; i < n; i++ {
+		var h ton.BlockIDExt
+		h.Seqno = zzvrt.NondetU32("seqno")
+		h.Shard = zzvrt.NondetU64("shard")
+		before := len(ch)
+		c.SetMasterHead(h)
+		if h.Seqno > best {
+			best = h.Seqno
+			published++
+			zzvrt.Assert("published-on-increase", len(ch) == before+1)
+			zzvrt.Assert("stored-head-is-the-new-one", c.masterHead.Seqno == h.Seqno && c.masterHead.Shard == h.Shard)
+		} else {
+			zzvrt.Assert("no-notification-without-increase", len(ch) == before)
+		}
+		zzvrt.Assert("monotone", c.MasterHead().Seqno == best)
+	}
+	last := uint32(0)
+	for i := 0; i < published; i++ {
+		u := <-ch
+		zzvrt.Assert("notifications-in-increasing-order", i == 0 || u.Head.Seqno > last)
+		zzvrt.Assert("notification-names-the-connection", u.Conn == c)
+		last = u.Head.Seqno
+	}
+	zzvrt.Assert("last-notification-is-the-stored-head", published == 0 || last == best)
+	zzvrt.Cover("three-increases", published == 3)
+	zzvrt.ObserveInt("published", published)
+}
